@@ -1,4 +1,4 @@
-CONSTANTS TS = {6,7,8,9,10,11,12,13}  Vs = {"i1","f","m"}  Durs = {1,2,3,5}  Caps = {1,2,3}  MaxEv = 3  MaxOps = 3
+CONSTANTS TS = {6,7,8,9,10,11,12,13}  Vs = {"i1","f","m"}  Durs = {1,2,3,5}  Caps = {1,2,3}  MaxEv = 3  Machines <- AllMachines  MaxOps = 3
 INIT Init
 NEXT Next
 CONSTRAINT Bound
